@@ -58,7 +58,7 @@ func checkFileOrder(p *Program, r *Result) {
 		if mi, ok := v.(*ssa.MakeInterface); ok {
 			v = mi.X
 		}
-		for _, o := range oc.origins(v) {
+		for _, o := range oc.originsUp(v) {
 			if o == "field:indexedMessageIterator."+field {
 				return true
 			}
@@ -69,7 +69,7 @@ func checkFileOrder(p *Program, r *Result) {
 		if mi, ok := v.(*ssa.MakeInterface); ok {
 			v = mi.X
 		}
-		for _, o := range oc.origins(v) {
+		for _, o := range oc.originsUp(v) {
 			if o == p.roles().queueOrigin() {
 				return true
 			}
